@@ -354,6 +354,46 @@ def main(tier, seed):
                 pth_ = save("c20-line-%s-%d.exp" % (lname, pad), "\n" * pad + ltext)
                 res.violation("%s on line %d is reported on line %s (%s)" % (lname, lline + pad, hits[:1] or "none", found[:3]),
                               {"input_file": pth_, "replay": "%s/bin/check-express %s" % (bdir, pth_)})
+    # ---- an encoded string literal left open at the end of its line: everything said about it is said for that line, and the
+    # digits judged (and counted) are its own - the end of the line is not one of them
+    ecases = [("unterminated_encoded_8_digits", '"0000004A', [(3, 29, None)]),
+              ("unterminated_encoded_bad_digit", '"0000004g', [(3, 29, None), (3, 30, "(g)")]),
+              ("unterminated_encoded_7_digits", '"0000004', [(3, 29, None), (3, 31, "(7)")]),
+              ("terminated_encoded_9_digits", '"0000004A1"', [(3, 31, "(9)")]),
+              ("terminated_encoded_bad_digit", '"000000zA"', [(3, 30, "(z)")])]
+    for (ename, elit, ewant) in ecases:
+        for pad in (0, 4):
+            fl = os.path.join(wdir, "line.exp")
+            etext = "\n" * pad + "SCHEMA u6;\nCONSTANT\n  c : STRING := %s\n  ;\nEND_CONSTANT;\nEND_SCHEMA;\n" % elit
+            open(fl, "w", encoding="latin-1").write(etext)
+            rcl, ol, el = sh([os.path.join(bdir, "bin", "check-express"), fl], timeout=60, cwd=wdir)
+            evals += 1
+            hist["line_cases"] = hist.get("line_cases", 0) + 1
+            found = [(int(m_.group(1)), int(m_.group(2)), m_.group(3)) for m_ in re.finditer(r"line\.exp:(\d+): --ERROR PE(\d+): ([^\n]*)", ol + el)]
+            found = [f_ for f_ in found if f_[1] in (29, 30, 31)]
+            ok_ = len(found) == len(ewant) and all(f_[0] == w_[0] + pad and f_[1] == w_[1] and (w_[2] is None or w_[2] in f_[2]) for f_, w_ in zip(found, ewant))
+            if not ok_:
+                oracle_fail += 1
+                pth_ = save("c20-line-%s-%d.exp" % (ename, pad), etext)
+                res.violation("%s on line %d: expected %s, reported %s" % (ename, 3 + pad, [("line %d" % (w_[0] + pad), "PE%03d" % w_[1], w_[2]) for w_ in ewant], found),
+                              {"input_file": pth_, "replay": "%s/bin/check-express %s" % (bdir, pth_)})
+    # ---- warnings that quote a name: the name is the one from the input (each with its class switched on)
+    wcases = [("indexing_mixed_select", ["-w", "indexing"], "SCHEMA w1;\nTYPE l1 = LIST OF INTEGER;\nEND_TYPE;\nTYPE sel_of_both = SELECT (l1, a);\nEND_TYPE;\nENTITY a;\n  p : INTEGER;\nEND_ENTITY;\n"
+               "FUNCTION g(x : sel_of_both) : INTEGER;\n  RETURN (x[1]);\nEND_FUNCTION;\nEND_SCHEMA;\n", 10, "sel_of_both", 10),
+              ("small_real", ["-w", "limits"], "SCHEMA w2;\nCONSTANT\n  c : REAL := 1.5e-45;\nEND_CONSTANT;\nEND_SCHEMA;\n", 25, "1.5e-45", 3)]
+    for (wname, wopts, wtext, wcode, wquote, wline) in wcases:
+        fl = os.path.join(wdir, "warn.exp")
+        open(fl, "w", encoding="latin-1").write(wtext)
+        rcl, ol, el = sh([os.path.join(bdir, "bin", "check-express")] + wopts + [fl], timeout=60, cwd=wdir)
+        evals += 1
+        hist["warning_quotes"] = hist.get("warning_quotes", 0) + 1
+        found = [(int(m_.group(1)), int(m_.group(2)), m_.group(3)) for m_ in re.finditer(r"warn\.exp:(\d+): WARNING PW(\d+): ([^\n]*)", ol + el)]
+        hits = [f_ for f_ in found if f_[1] == wcode]
+        if rcl != 0 or not hits or wquote not in hits[0][2] or hits[0][0] != wline:
+            oracle_fail += 1
+            pth_ = save("c20-warning-%s.exp" % wname, wtext)
+            res.violation("%s: expected the warning PW%03d on line %d quoting %r (status 0); status %d, printed %s" % (wname, wcode, wline, wquote, rcl, found[:3] or (ol + el)[-200:]),
+                          {"input_file": pth_, "replay": "%s/bin/check-express %s %s" % (bdir, " ".join(wopts), pth_)})
     # ---- buffered output (-B): the diagnostics of a faulty schema are the same, each once, as without -B - also when a fatal
     # one (a syntax error) makes the buffer be flushed before the end
     bcases = [("syntax_error_after_lexical_ones", "SCHEMA b1;\nENTITY a;\n  x : INTEGER;\n  $\nEND_ENTITY;\nENTITY b;\n  _y : INTEGER;\n  z  INTEGER;\nEND_ENTITY;\nEND_SCHEMA;\n"),
@@ -365,16 +405,30 @@ def main(tier, seed):
     # correct schemas that raise warnings only: a few, and more than the buffer holds (100)
     for nw in (3, 99, 100, 101, 120, 250):
         bcases.append(("warnings_only_%d" % nw, "SCHEMA bw;\nCONSTANT\n" + "".join("  c%d : REAL := 1.0e-45;\n" % j for j in range(nw)) + "END_CONSTANT;\nENTITY e;\n  a : INTEGER;\nEND_ENTITY;\nEND_SCHEMA;\n"))
+    # names longer than a message is assumed to be (ERROR_MAX_STRLEN): twenty to forty undefined types of 150 .. 900 characters
+    for nl_ in (150, 230, 400, 900):
+        for cnt_ in (20, 40):
+            bcases.append(("long_names_%d_x%d" % (nl_, cnt_), "SCHEMA bl;\nENTITY a;\n" + "".join("  x%d : %s%d;\n" % (j, "n" * nl_, j) for j in range(cnt_)) + "END_ENTITY;\nEND_SCHEMA;\n"))
+    bcases.append(("one_name_longer_than_the_buffer", "SCHEMA bl;\nENTITY a;\n  x : INTEGER;\n  y : %s;\n  z : nosuch;\nEND_ENTITY;\nEND_SCHEMA;\n" % ("m" * 5000)))
     for (bname, btext) in bcases:
         fb = os.path.join(wdir, "buffered.exp")
         open(fb, "w", encoding="latin-1").write(btext)
         outs = {}
+        full_ = {}
         wopt = ["-w", "limits"] if bname.startswith("warnings_only") else []
         for opt in ([], ["-B"]):
             rcb, ob, eb = sh([os.path.join(bdir, "bin", "check-express")] + opt + wopt + [fb], timeout=60, cwd=wdir)
             outs[bool(opt)] = (rcb, sorted(re.findall(r"(ERROR|WARNING) P[EW](\d+)", ob + eb)))
+            full_[bool(opt)] = sorted(l_ for l_ in (ob + eb).split("\n") if re.search(r"(ERROR|WARNING) P[EW]\d+", l_))
         evals += 1
         hist["buffered_compared"] = hist.get("buffered_compared", 0) + 1
+        if outs[True] == outs[False] and full_[True] != full_[False]:
+            # the same diagnostics, but not the same text: a message cut short or run into the next one
+            oracle_fail += 1
+            pth_ = save("c20-buffered-%s.exp" % re.sub(r"\W", "_", bname)[:50], btext)
+            dl_ = [l_ for l_ in full_[True] if l_ not in full_[False]]
+            res.violation("with -B the diagnostics of %s read differently: %d lines against %d, e.g. %r" % (bname, len(full_[True]), len(full_[False]), (dl_[:1] or [""])[0][-160:]),
+                          {"input_file": pth_, "replay": "%s/bin/check-express -B %s" % (bdir, pth_)})
         if outs[True] != outs[False]:
             oracle_fail += 1
             pth_ = save("c20-buffered-%s.exp" % re.sub(r"\W", "_", bname)[:50], btext)
